@@ -4,14 +4,21 @@ import LexVerif.Proof.ParseNumberDebugMain
 -/
 namespace LexVerif.Proof.PNDebug
 open LexVerif LexVerif.Model LexVerif.Spec
-open LexVerif.Props.C12 (Bytes.Valid incCount_spec)
+open LexVerif.Props.C12 (Bytes.Valid incCount_spec peek_error_iff)
+open LexVerif.Proof.PNTotal (Adv csum step_adv)
 
 variable {c : Cfg}
 
+theorem peek_ok (cx : Ctx c) (k : Comp) (b : Bytes) : ∃ r, peek c k b = .ok r := by
+  cases hp : peek c k b with
+  | error e => exact absurd ((peek_error_iff c k b).mp ⟨e, hp⟩) (cx.skipOk k)
+  | ok r => exact ⟨r, rfl⟩
+
 theorem iterNext_safe (cx : Ctx c) (k : Comp) (b : Bytes) : Safe (iterNext c k b) (fun _ => True) := by
+  obtain ⟨⟨v, b1⟩, hp⟩ := peek_ok cx k b
   unfold iterNext
-  simp only [cx.peekEq, bind, Except.bind]
-  cases b.slc[b.index]? <;> trivial
+  simp only [hp, bind, Except.bind]
+  cases v <;> trivial
 
 theorem startsWith_safe (cx : Ctx c) : ∀ (s : List Nat) (b : Bytes), Safe (startsWith c s b) (fun _ => True)
   | [], b => by unfold startsWith; trivial
@@ -47,13 +54,15 @@ theorem isSpecialEq_safe (cx : Ctx c) (b : Bytes) (s : List Nat) : Safe (isSpeci
     rintro ⟨hit, b1⟩ _
     simp only
     split
-    · simp only [cx.peekEq, bind, Except.bind]; trivial
+    · obtain ⟨⟨v, b2⟩, hp⟩ := peek_ok cx .special b1
+      simp only [hp, bind, Except.bind]; trivial
     · trivial
   · refine Safe.bind (startsWithUncased_safe cx s b) ?_
     rintro ⟨hit, b1⟩ _
     simp only
     split
-    · simp only [cx.peekEq, bind, Except.bind]; trivial
+    · obtain ⟨⟨v, b2⟩, hp⟩ := peek_ok cx .special b1
+      simp only [hp, bind, Except.bind]; trivial
     · trivial
 
 theorem try1_safe (cx : Ctx c) (b : Bytes) (len : Nat) (str : Option (List Nat)) :
@@ -95,32 +104,36 @@ theorem parseSpecialComplete_safe (cx : Ctx c) (o : POpts) (b : Bytes) :
   · split <;> trivial
   · trivial
 
-theorem isConsumed_safe (cx : Ctx c) (k : Comp) (b : Bytes) :
-    Safe (isConsumed c k b) (fun r => r.2 = b ∧ (r.1 = false → b.index < b.slc.length)) := by
+theorem isConsumed_safe (cx : Ctx c) (k : Comp) (b : Bytes) (hb : Bytes.Valid b) :
+    Safe (isConsumed c k b) (fun r => Adv b r.2 ∧ (r.1 = false → r.2.index < r.2.slc.length)) := by
   unfold isConsumed
   split
-  · refine ⟨rfl, ?_⟩
+  · refine ⟨adv_refl hb, ?_⟩
     intro h
     simp only [Bytes.isBufferEmpty, decide_eq_false_iff_not] at h
+    simp only
     omega
-  · simp only [cx.peekEq, bind, Except.bind]
-    refine ⟨rfl, ?_⟩
+  · obtain ⟨v, b1, hp, ha, hx, _⟩ := peek_gen cx k b hb
+    simp only [hp, bind, Except.bind]
+    refine ⟨ha, ?_⟩
     intro h
-    cases hx : b.slc[b.index]? with
-    | none => simp [hx] at h
-    | some x => exact get_lt hx
+    cases v with
+    | none => simp at h
+    | some x => exact get_lt hx.symm
 
-theorem parseCompleteNumber_safe (cx : Ctx c) (o : POpts) (b : Bytes) (neg : Bool) (hb : b.index < b.slc.length) :
+theorem parseCompleteNumber_safe (cx : Ctx c) (hi : PeekTriv c .integer) (hf : PeekTriv c .fraction) (o : POpts)
+    (ox : OCtx c o) (b : Bytes) (neg : Bool) (hb : b.index < b.slc.length) :
     Safe (parseCompleteNumber c o b neg) (fun _ => True) := by
   unfold parseCompleteNumber
-  refine Safe.bind (parseNumber_safe cx false o b neg hb) ?_
+  refine Safe.bind (parseNumber_safe cx hi hf false o ox b neg hb) ?_
   rintro ⟨n, count⟩ _
   simp only
   split
   · trivial
   · exact Safe.err
 
-theorem parseFloatSyntax_safe (cx : Ctx c) (o : POpts) (isPartial : Bool) (input : List Nat) :
+theorem parseFloatSyntax_safe (cx : Ctx c) (hi : PeekTriv c .integer) (hf : PeekTriv c .fraction) (o : POpts)
+    (ox : OCtx c o) (isPartial : Bool) (input : List Nat) :
     Safe (parseFloatSyntax c o isPartial input) (fun _ => True) := by
   unfold parseFloatSyntax
   unfold parseMantissaSign
@@ -128,11 +141,10 @@ theorem parseFloatSyntax_safe (cx : Ctx c) (o : POpts) (isPartial : Bool) (input
   rintro ⟨neg, b1⟩ hadv1
   have hadv1 : Adv (Bytes.new input) b1 := hadv1
   simp only
-  refine Safe.bind (isConsumed_safe cx .integer b1) ?_
+  refine Safe.bind (isConsumed_safe cx .integer b1 hadv1.valid') ?_
   rintro ⟨consumed, b2⟩ ⟨hb2, hne⟩
-  have hb2 : b2 = b1 := hb2
-  subst hb2
-  simp only at hne ⊢
+  have hne : consumed = false → b2.index < b2.slc.length := hne
+  simp only
   split
   · split
     · exact Safe.err
@@ -140,7 +152,7 @@ theorem parseFloatSyntax_safe (cx : Ctx c) (o : POpts) (isPartial : Bool) (input
   · next hc =>
     have hlt := hne (by simpa using hc)
     split
-    · have h := parseNumber_safe cx true o b2 neg hlt
+    · have h := parseNumber_safe cx hi hf true o ox b2 neg hlt
       cases hres : parseNumber c true o b2 neg with
       | ok r => trivial
       | error e =>
@@ -155,7 +167,7 @@ theorem parseFloatSyntax_safe (cx : Ctx c) (o : POpts) (isPartial : Bool) (input
           · exact Safe.err
         | panic t => exact h.elim
         | fault t => exact h.elim
-    · have h := parseCompleteNumber_safe cx o b2 neg hlt
+    · have h := parseCompleteNumber_safe cx hi hf o ox b2 neg hlt
       cases hres : parseCompleteNumber c o b2 neg with
       | ok r => trivial
       | error e =>
